@@ -366,7 +366,7 @@ class UserFcn:
             return (deserializeString, (self.__class__, self.expr, self.name))
 
         if isinstance(self.expr, types.FunctionType):
-            refs = {n: self.expr.__globals__[n] for n in self.expr.__code__.co_names if n in self.expr.__globals__}
+            refs = {n: self.expr.__globals__[n] for n in _namesUsed(self.expr.__code__) if n in self.expr.__globals__}
             return (
                 deserializeFunction,
                 (
